@@ -124,20 +124,44 @@ Lemma pc_goto r x : pc_of (goto r x) = x. Proof. reflexivity. Qed.
 
 (* every field of the shared state that a projection can see *)
 Ltac simp_sh :=
-  cbn [files_of stamp lockfile flock clock netreqs set_files set_stamp set_flock set_clock add_net
-       pc_of kind_of tries populated cache_err ts goto set_err set_pop set_ts inc_tries] in *.
+  cbn [files_of stamp lockfile locks next_ino clock netreqs set_files set_stamp set_locks set_lockfile
+       create_lockfile set_clock add_net
+       pc_of kind_of tries populated cache_err ts fd goto set_err set_pop set_ts inc_tries set_fd] in *.
 
-Lemma files_release p s : files_of (release p s) = files_of s.
-Proof. unfold release. destruct (flock s) as [q|]; auto. destruct (Nat.eqb p q); auto. Qed.
+Lemma files_release p d s : files_of (release p d s) = files_of s.
+Proof.
+  unfold release. destruct d as [i|]; auto. destruct (lget (locks s) i) as [q|]; auto.
+  destruct (Nat.eqb p q); auto.
+Qed.
 
-Lemma stamp_release p s : stamp (release p s) = stamp s.
-Proof. unfold release. destruct (flock s) as [q|]; auto. destruct (Nat.eqb p q); auto. Qed.
+Lemma stamp_release p d s : stamp (release p d s) = stamp s.
+Proof.
+  unfold release. destruct d as [i|]; auto. destruct (lget (locks s) i) as [q|]; auto.
+  destruct (Nat.eqb p q); auto.
+Qed.
 
-Lemma flock_release p s :
-  flock (release p s) = match flock s with
-                        | Some q => if Nat.eqb p q then None else Some q
-                        | None => None end.
-Proof. unfold release. destruct (flock s) as [q|] eqn:E; auto. destruct (Nat.eqb p q); auto. Qed.
+Lemma lockfile_release p d s : lockfile (release p d s) = lockfile s.
+Proof.
+  unfold release. destruct d as [i|]; auto. destruct (lget (locks s) i) as [q|]; auto.
+  destruct (Nat.eqb p q); auto.
+Qed.
+
+Lemma files_leave c p d s : files_of (leave c p d s) = files_of s.
+Proof. unfold leave. destruct (unlink_on_release c); simpl; apply files_release. Qed.
+
+Lemma lget_ldel l i j : lget (ldel l i) j = if Nat.eqb j i then None else lget l j.
+Proof.
+  induction l as [|[k q] l IH]; simpl.
+  - destruct (Nat.eqb j i); reflexivity.
+  - destruct (Nat.eqb i k) eqn:E0.
+    + apply Nat.eqb_eq in E0. subst k. rewrite IH. destruct (Nat.eqb j i); reflexivity.
+    + simpl. rewrite IH. destruct (Nat.eqb j k) eqn:E1; auto.
+      apply Nat.eqb_eq in E1. subst k. destruct (Nat.eqb j i) eqn:E2; auto.
+      apply Nat.eqb_eq in E2. subst j. rewrite Nat.eqb_refl in E0. discriminate.
+Qed.
+
+Lemma lget_lset l i p j : lget (lset l i p) j = if Nat.eqb j i then Some p else lget l j.
+Proof. unfold lset. simpl. rewrite lget_ldel. destruct (Nat.eqb j i); reflexivity. Qed.
 
 (* ================================================== repaired protocol === *)
 
@@ -170,7 +194,6 @@ Definition pop_ok (c : cfg) (m : files) (x : pc) : Prop :=
 
 Definition Jfix (c : cfg) (p : nat) (s : shared) (r : proc) : Prop :=
   fixed_pc (pc_of r) = true /\
-  (holding (pc_of r) = true -> flock s = Some p) /\
   (populated r = true -> below (files_of s) (nfiles c)) /\
   tmp_ok c p (files_of s) (pc_of r) /\
   pop_ok c (files_of s) (pc_of r).
@@ -178,8 +201,7 @@ Definition Jfix (c : cfg) (p : nat) (s : shared) (r : proc) : Prop :=
 (* what a step of p may change, as seen by the other processes *)
 Definition frame (p : nat) (s s' : shared) : Prop :=
   (forall q f, q <> p -> fget (files_of s') (Tmp q f) = fget (files_of s) (Tmp q f)) /\
-  (forall f, has (files_of s) (Ver f) = true -> has (files_of s') (Ver f) = true) /\
-  (forall q, q <> p -> flock s = Some q -> flock s' = Some q).
+  (forall f, has (files_of s) (Ver f) = true -> has (files_of s') (Ver f) = true).
 
 Lemma frame_refl p s : frame p s s.
 Proof. repeat split; auto. Qed.
@@ -203,24 +225,8 @@ Proof.
     rewrite has_fdel. simpl. exact Hg.
 Qed.
 
-Lemma frame_release p s : frame p s (release p s).
-Proof.
-  repeat split; rewrite ?files_release; auto.
-  intros q Hq Hf. rewrite flock_release, Hf.
-  destruct (Nat.eqb p q) eqn:E; auto. apply Nat.eqb_eq in E. congruence.
-Qed.
-
-Lemma frame_trans p a b d : frame p a b -> frame p b d -> frame p a d.
-Proof.
-  intros (A1 & A2 & A3) (B1 & B2 & B3). repeat split.
-  - intros q f Hq. rewrite B1, A1; auto.
-  - auto.
-  - auto.
-Qed.
-
-Lemma frame_same p s s' :
-  files_of s' = files_of s -> flock s' = flock s -> frame p s s'.
-Proof. intros H1 H2. unfold frame. rewrite H1, H2. repeat split; auto. Qed.
+Lemma frame_same p s s' : files_of s' = files_of s -> frame p s s'.
+Proof. intros H1. unfold frame. rewrite H1. split; auto. Qed.
 
 Ltac case_step H :=
   repeat match type of H with
@@ -232,12 +238,10 @@ Ltac case_step H :=
 Lemma pstep_frame c p s r s' r' :
   fixed_pc (pc_of r) = true -> pstep c p s r = (s', r') -> frame p s s'.
 Proof.
-  intros Hf H. unfold pstep in H.
+  intros Hf H. unfold pstep, acquire_step, opened in H.
   destruct (pc_of r) eqn:Epc; try discriminate Hf; case_step H;
-    try apply frame_refl; try apply frame_tmp; try apply frame_replace; try apply frame_release;
-    try (apply frame_same; reflexivity).
-  all: try (eapply frame_trans; [|apply frame_release]; apply frame_same; reflexivity).
-  all: repeat split; simp_sh; auto; intros q Hq Hfl; congruence.
+    try apply frame_refl; try apply frame_tmp; try apply frame_replace;
+    try (apply frame_same; simp_sh; rewrite ?files_leave; reflexivity).
 Qed.
 
 Lemma below_mono m f g : below m f -> g <= f -> below m g.
@@ -249,22 +253,21 @@ Proof.
 Qed.
 
 Lemma below_frame p s s' f : frame p s s' -> below (files_of s) f -> below (files_of s') f.
-Proof. intros (_ & F2 & _) H k Hk. apply F2. apply H. exact Hk. Qed.
+Proof. intros (_ & F2) H k Hk. apply F2. apply H. exact Hk. Qed.
 
 Lemma Jfix_stable c p q s s' rq : q <> p -> frame p s s' -> Jfix c q s rq -> Jfix c q s' rq.
 Proof.
-  intros Hq Hfr (J1 & J2 & J3 & J4 & J5).
-  pose proof Hfr as (F1 & F2 & F3).
-  split; [exact J1|]. split; [|split; [|split]].
-  - intros Hh. apply F3; auto.
+  intros Hq Hfr (J1 & J3 & J4 & J5).
+  pose proof Hfr as (F1 & F2).
+  split; [exact J1|]. split; [|split].
   - intros Hp. eapply below_frame; eauto.
   - destruct (pc_of rq); simpl in *; auto; rewrite F1; auto.
   - destruct (pc_of rq); simpl in *; auto; eapply below_frame; eauto.
 Qed.
 
 Lemma Jfix_same c q s s' r :
-  files_of s' = files_of s -> flock s' = flock s -> Jfix c q s r -> Jfix c q s' r.
-Proof. unfold Jfix. intros -> ->. auto. Qed.
+  files_of s' = files_of s -> Jfix c q s r -> Jfix c q s' r.
+Proof. unfold Jfix. intros ->. auto. Qed.
 
 Lemma vers_good_tmp c m p f x : vers_good c m -> vers_good c (fset m (Tmp p f) x).
 Proof. intros H g y. rewrite fget_fset. simpl. apply H. Qed.
@@ -307,14 +310,14 @@ Lemma pstep_fixed c p s r s' r' :
   vers_good c (files_of s) -> Jfix c p s r -> pstep c p s r = (s', r') ->
   vers_good c (files_of s') /\ Jfix c p s' r'.
 Proof.
-  intros HA (J1 & J2 & J3 & J4 & J5) H. unfold pstep, after_chunk, lookup_fixed in H.
-  destruct (pc_of r) eqn:Epc; try discriminate J1; cbn [holding tmp_ok pop_ok] in J2, J4, J5;
+  intros HA (J1 & J3 & J4 & J5) H. unfold pstep, after_chunk, lookup_fixed, acquire_step, opened in H.
+  destruct (pc_of r) eqn:Epc; try discriminate J1; cbn [holding tmp_ok pop_ok] in J4, J5;
     try match type of J4 with _ /\ _ => destruct J4 as [J4 J4'] end;
     unfold cur_content in H; try rewrite J4 in H;
-    case_step H; unfold Jfix; simp_sh; rewrite ?files_release, ?Epc;
+    case_step H; unfold Jfix; simp_sh; rewrite ?files_leave, ?Epc;
     cbn [fixed_pc holding tmp_ok pop_ok]; rewrite ?fget_tmp_same, ?write_good.
   all: try (split; [first [exact HA | apply vers_good_tmp; exact HA | apply vers_good_replace; exact HA]|]).
-  all: try match goal with |- _ /\ _ => split; [reflexivity|split; [|split; [|split]]] end.
+  all: try match goal with |- _ /\ _ => split; [reflexivity|split; [|split]] end.
   all: auto using below_tmp, below_replace, below_replace_S, below_0.
   all: try (intros; discriminate).
   all: try (rewrite good_0 by assumption; reflexivity).
@@ -335,10 +338,10 @@ Definition fixed_inv (c : cfg) (w : world) : Prop :=
   forall p r, nth_error (procs w) p = Some r -> Jfix c p (sh w) r.
 
 Lemma Jfix_dead c p s r :
-  Jfix c p s r -> Jfix c p (release p s) (goto r Dead).
+  Jfix c p s r -> Jfix c p (release p (fd r) s) (set_fd (goto r Dead) None).
 Proof.
-  intros (J1 & J2 & J3 & J4 & J5). unfold Jfix. simp_sh. rewrite files_release.
-  cbn [fixed_pc holding tmp_ok pop_ok]. repeat split; auto. intro; discriminate.
+  intros (J1 & J3 & J4 & J5). unfold Jfix. simp_sh. rewrite files_release.
+  cbn [fixed_pc holding tmp_ok pop_ok]. repeat split; auto.
 Qed.
 
 Lemma fixed_inv_step c w e : fixed_inv c w -> fixed_inv c (step c w e).
@@ -361,7 +364,7 @@ Proof.
     + apply Nat.eqb_eq in Epq. subst q. rewrite E in Hq. inversion Hq. subst.
       apply Jfix_dead. auto.
     + apply Nat.eqb_neq in Epq. assert (Hne : q <> p) by congruence.
-      eapply Jfix_stable; [exact Hne | apply frame_release | apply HJ; exact Hq].
+      eapply Jfix_stable; [exact Hne | apply frame_same; apply files_release | apply HJ; exact Hq].
   - split; simpl; auto.
 Qed.
 
@@ -397,16 +400,135 @@ Proof.
   eapply HA. exact H.
 Qed.
 
+(* ---- the lock: identity of the lock file, open descriptors, advisory locks ---- *)
+
+(* a process inside "with CacheLock" holds the advisory lock on the file it has open, and every
+   open descriptor refers to the file that carries the name cache_lock.lock NOW *)
+Definition Jlock (p : nat) (s : shared) (r : proc) : Prop :=
+  (holding (pc_of r) = true -> exists i, fd r = Some i /\ lget (locks s) i = Some p) /\
+  (forall i, fd r = Some i -> lockfile s = Some i).
+
+Definition lframe (p : nat) (s s' : shared) : Prop :=
+  (forall i q, q <> p -> lget (locks s) i = Some q -> lget (locks s') i = Some q) /\
+  (forall i, lockfile s = Some i -> lockfile s' = Some i).
+
+Lemma lframe_refl p s : lframe p s s.
+Proof. split; auto. Qed.
+
+Lemma lframe_same p s s' : locks s' = locks s -> lockfile s' = lockfile s -> lframe p s s'.
+Proof. intros H1 H2. unfold lframe. rewrite H1, H2. split; auto. Qed.
+
+Lemma lframe_release p d s : lframe p s (release p d s).
+Proof.
+  split; [|intros i H; rewrite lockfile_release; exact H].
+  intros i q Hq Hl. unfold release. destruct d as [i0|]; auto.
+  destruct (lget (locks s) i0) as [q0|] eqn:E0; auto.
+  destruct (Nat.eqb p q0) eqn:Ep; auto. apply Nat.eqb_eq in Ep. subst q0. simpl.
+  rewrite lget_ldel. destruct (Nat.eqb i i0) eqn:Ei; auto.
+  apply Nat.eqb_eq in Ei. subst i0. congruence.
+Qed.
+
+Lemma Jlock_stable p q s s' rq : q <> p -> lframe p s s' -> Jlock q s rq -> Jlock q s' rq.
+Proof.
+  intros Hq [L1 L2] [A B]. split.
+  - intro Hh. destruct (A Hh) as (i & Hfd & Hl). exists i. split; auto.
+  - intros i Hfd. apply L2. apply B. exact Hfd.
+Qed.
+
+Lemma lframe_trans p a b d : lframe p a b -> lframe p b d -> lframe p a d.
+Proof. intros [A1 A2] [B1 B2]. split; auto. Qed.
+
+Lemma lframe_acquire p s s1 n :
+  lget (locks s) n = None -> locks s1 = locks s ->
+  (forall i, lockfile s = Some i -> lockfile s1 = Some i) ->
+  lframe p s (set_locks s1 (lset (locks s) n p)).
+Proof.
+  intros Hn Hl Hf. split; simp_sh; auto.
+  intros i q Hq Hi. rewrite lget_lset. destruct (Nat.eqb i n) eqn:E; auto.
+  apply Nat.eqb_eq in E. subst i. congruence.
+Qed.
+
+Lemma lframe_create p s : lockfile s = None -> lframe p s (create_lockfile s).
+Proof. intro H. split; simp_sh; auto. intros i Hi. congruence. Qed.
+
+Lemma pstep_lock c p s r s' r' :
+  unlink_on_release c = false -> fixed_pc (pc_of r) = true -> Jlock p s r ->
+  pstep c p s r = (s', r') -> Jlock p s' r' /\ lframe p s s'.
+Proof.
+  intros Hu Hf [A B] H.
+  unfold pstep, acquire_step, opened, lock_ino, leave, after_chunk, lookup_fixed in H. rewrite Hu in H.
+  destruct (pc_of r) eqn:Epc; try discriminate Hf; cbn [holding] in A.
+  all: case_step H; simp_sh; rewrite ?Epc.
+  all: split; [split|].
+  all: simp_sh; rewrite ?Epc; cbn [holding]; rewrite ?lockfile_release.
+  all: try (intro Hh; discriminate Hh).
+  all: try (intros ? Hd; discriminate Hd).
+  all: try apply lframe_refl.
+  all: try apply lframe_release.
+  all: try (apply lframe_same; reflexivity).
+  all: try exact B.
+  all: try (intros _; apply A; reflexivity).
+  all: try (intros _; eexists; split; [reflexivity | rewrite lget_lset, Nat.eqb_refl; reflexivity]).
+  all: try (intros ? Hi; inversion Hi; subst; first [assumption | apply B; assumption | reflexivity]).
+  all: try (apply lframe_create; assumption).
+  all: try (apply lframe_acquire; [assumption | reflexivity | simp_sh; auto; intros ? Hi; congruence]).
+  all: try (eapply lframe_trans; [|apply lframe_release]; apply lframe_same; reflexivity).
+Qed.
+
+Definition lock_inv (w : world) : Prop :=
+  forall p r, nth_error (procs w) p = Some r -> Jlock p (sh w) r.
+
+Lemma lock_inv_step c w e :
+  unlink_on_release c = false -> fixed_inv c w -> lock_inv w -> lock_inv (step c w e).
+Proof.
+  intros Hu [_ HJ] HL. destruct e as [p|p|d]; simpl; auto.
+  - destruct (nth_error (procs w) p) as [r|] eqn:E; auto.
+    destruct (pstep c p (sh w) r) as [s' r'] eqn:Ep.
+    destruct (pstep_lock _ _ _ _ _ _ Hu (proj1 (HJ _ _ E)) (HL _ _ E) Ep) as [HL' Hfr].
+    intros q rq Hq. simpl in *. rewrite nth_error_upd in Hq.
+    destruct (Nat.eqb p q) eqn:Epq.
+    + apply Nat.eqb_eq in Epq. subst q. rewrite E in Hq. inversion Hq. subst. exact HL'.
+    + apply Nat.eqb_neq in Epq. assert (Hne : q <> p) by congruence.
+      eapply Jlock_stable; [exact Hne | exact Hfr | apply HL; exact Hq].
+  - destruct (nth_error (procs w) p) as [r|] eqn:E; auto.
+    destruct (is_done (pc_of r)) eqn:Ed; auto.
+    intros q rq Hq. simpl in *. rewrite nth_error_upd in Hq.
+    destruct (Nat.eqb p q) eqn:Epq.
+    + apply Nat.eqb_eq in Epq. subst q. rewrite E in Hq. inversion Hq. subst.
+      split; simpl; intros; discriminate.
+    + apply Nat.eqb_neq in Epq. assert (Hne : q <> p) by congruence.
+      eapply Jlock_stable; [exact Hne | apply lframe_release | apply HL; exact Hq].
+Qed.
+
+Lemma lock_inv_run c evs : forall w,
+  unlink_on_release c = false -> fixed_inv c w -> lock_inv w -> lock_inv (run c w evs).
+Proof.
+  induction evs as [|e evs IH]; intros w Hu HI HL; simpl; auto.
+  apply IH; auto; [apply fixed_inv_step | apply lock_inv_step]; auto.
+Qed.
+
+Lemma lock_inv_init t ks : lock_inv (init t ks).
+Proof.
+  intros p r Hr. simpl in Hr. apply nth_error_map_start in Hr. destruct Hr as (k & -> & _).
+  split; simpl.
+  - destruct k; simpl; intro; discriminate.
+  - intros i Hi. discriminate.
+Qed.
+
+(* Two processes inside "with CacheLock" are the same process.  The lock file has an identity:
+   both hold the advisory lock on the file they have open, every open descriptor refers to the file
+   that currently carries the name, and a file has at most one lock holder. *)
 Lemma fixed_lock_exclusive c t ks evs p q rp rq :
-  forallb is_fixed_kind ks = true ->
+  unlink_on_release c = false -> forallb is_fixed_kind ks = true ->
   nth_error (procs (run c (init t ks) evs)) p = Some rp ->
   nth_error (procs (run c (init t ks) evs)) q = Some rq ->
   holding (pc_of rp) = true -> holding (pc_of rq) = true -> p = q.
 Proof.
-  intros Hk Hp Hq Hhp Hhq.
-  destruct (fixed_inv_run c evs _ (fixed_inv_init c t ks Hk)) as [_ HJ].
-  destruct (HJ _ _ Hp) as (_ & J2 & _). destruct (HJ _ _ Hq) as (_ & J2' & _).
-  specialize (J2 Hhp). specialize (J2' Hhq). congruence.
+  intros Hu Hk Hp Hq Hhp Hhq.
+  pose proof (lock_inv_run c evs _ Hu (fixed_inv_init c t ks Hk) (lock_inv_init t ks)) as HL.
+  destruct (HL _ _ Hp) as [A B]. destruct (HL _ _ Hq) as [A' B'].
+  destruct (A Hhp) as (i & Hfd & Hl). destruct (A' Hhq) as (j & Hfd' & Hl').
+  pose proof (B _ Hfd) as H1. pose proof (B' _ Hfd') as H2. congruence.
 Qed.
 
 (* a process that went through a whole population leaves every bundled file
@@ -418,7 +540,7 @@ Lemma fixed_finished_population c t ks evs p r f :
 Proof.
   intros Hk Hp Hpop Hf.
   destruct (fixed_inv_run c evs _ (fixed_inv_init c t ks Hk)) as [HA HJ].
-  destruct (HJ _ _ Hp) as (_ & _ & J3 & _). specialize (J3 Hpop f Hf).
+  destruct (HJ _ _ Hp) as (_ & J3 & _). specialize (J3 Hpop f Hf).
   unfold ver. unfold has in J3. destruct (fget _ (Ver f)) as [x|] eqn:E; [|discriminate].
   f_equal. eapply HA. exact E.
 Qed.
@@ -446,7 +568,7 @@ Definition lf_pc (x : pc) : bool :=
 
 Lemma pstep_kind c p s r : kind_of (snd (pstep c p s r)) = kind_of r.
 Proof.
-  destruct r as [k x tr po ce tt]. unfold pstep, after_chunk, lookup_fixed. simp_sh. destruct x;
+  destruct r as [k x tr po ce tt dd]. unfold pstep, after_chunk, lookup_fixed, acquire_step. simp_sh. destruct x;
     repeat match goal with
            | |- context [if ?b then _ else _] => destruct b
            | |- context [match ?x with _ => _ end] => destruct x
@@ -458,7 +580,7 @@ Lemma pstep_lf c p s r s' r' v :
   lf_pc (pc_of r) = true -> pstep c p s r = (s', r') -> lf_pc (pc_of r') = true.
 Proof.
   intros HA Hk Hv Hl H. apply Nat.ltb_lt in Hv.
-  unfold pstep, after_chunk, lookup_fixed in H. rewrite Hk in H. cbn [target] in H. rewrite ?Hv in H.
+  unfold pstep, after_chunk, lookup_fixed, acquire_step in H. rewrite Hk in H. cbn [target] in H. rewrite ?Hv in H.
   destruct (pc_of r) eqn:Epc; try discriminate Hl.
   all: try (case_step H; simp_sh; rewrite ?Epc; reflexivity).
   - (* FRead *)
@@ -533,34 +655,40 @@ Proof.
   rewrite nth_error_upd, Nat.eqb_refl, H. reflexivity.
 Qed.
 
-(* repaired protocol: the last attempt on a lock held by another process gives up with the
-   cache error, takes nothing and changes no file *)
+(* repaired protocol: the last attempt on a lock file whose lock another process holds gives up
+   with the cache error, takes nothing, changes no file and closes its descriptor *)
 Lemma fixed_timeout_gives_cache_error c w p r q :
   nth_error (procs w) p = Some r ->
   (pc_of r = FAcquire \/ pc_of r = XAcquire) ->
-  flock (sh w) = Some q -> max_tries c <= S (tries r) ->
+  lget (locks (sh w)) (lock_ino (sh w) r) = Some q -> max_tries c <= S (tries r) ->
   exists r', proc_at (step c w (Run p)) p = Some r' /\
-             cache_err r' = true /\ holding (pc_of r') = false /\
-             flock (sh (step c w (Run p))) = Some q /\
+             cache_err r' = true /\ holding (pc_of r') = false /\ fd r' = None /\
+             locks (sh (step c w (Run p))) = locks (sh w) /\
              files_of (sh (step c w (Run p))) = files_of (sh w).
 Proof.
   intros Hr Hpc Hfl Ht. apply Nat.ltb_ge in Ht.
   exists (snd (pstep c p (sh w) r)). split; [apply proc_at_step_run; exact Hr|].
   rewrite (step_run_at _ _ _ _ Hr). simpl.
-  unfold pstep. destruct Hpc as [-> | ->]; rewrite Hfl, Ht; simpl; rewrite ?Hfl; auto.
+  unfold pstep, acquire_step, opened.
+  destruct Hpc as [-> | ->]; rewrite Hfl, Ht; simpl; repeat split; auto;
+    destruct (fd r); auto; destruct (lockfile (sh w)); auto.
 Qed.
 
-(* a free lock is obtained by the first attempt *)
+(* the lock on the lock file is free: the attempt obtains it *)
 Lemma fixed_free_lock_acquired c w p r :
   nth_error (procs w) p = Some r ->
-  (pc_of r = FAcquire \/ pc_of r = XAcquire) -> flock (sh w) = None ->
+  (pc_of r = FAcquire \/ pc_of r = XAcquire) ->
+  lget (locks (sh w)) (lock_ino (sh w) r) = None ->
   exists r', proc_at (step c w (Run p)) p = Some r' /\ holding (pc_of r') = true /\
-             flock (sh (step c w (Run p))) = Some p.
+             fd r' = Some (lock_ino (sh w) r) /\
+             lget (locks (sh (step c w (Run p)))) (lock_ino (sh w) r) = Some p.
 Proof.
   intros Hr Hpc Hfl.
   exists (snd (pstep c p (sh w) r)). split; [apply proc_at_step_run; exact Hr|].
-  rewrite (step_run_at _ _ _ _ Hr). simpl.
-  unfold pstep. destruct Hpc as [-> | ->]; rewrite Hfl; simpl; auto.
+  rewrite (step_run_at _ _ _ _ Hr). cbn [sh].
+  unfold pstep, acquire_step.
+  destruct Hpc as [-> | ->]; rewrite Hfl; cbn [fst snd]; simp_sh; cbn [holding]; repeat split; auto;
+    rewrite lget_lset, Nat.eqb_refl; reflexivity.
 Qed.
 
 (* code as it is AND repaired: cache_xml_versions entered within the refresh interval
@@ -660,7 +788,7 @@ Lemma pstep_cur c p s r s' r' :
   | _ => files_of s' = files_of s /\ forall f i, pc_of r' <> PWrite f i
   end.
 Proof.
-  intros (J1 & J2 & J3 & J4) H. unfold pstep, after_chunk, lookup_fixed in H.
+  intros (J1 & J2 & J3 & J4) H. unfold pstep, after_chunk, lookup_fixed, acquire_step in H.
   destruct (pc_of r) eqn:Epc; try discriminate J1; cbn [pop_cur] in J3.
   all: try (case_step H; unfold Jcur; simp_sh; rewrite ?Epc;
             (split; [split; [reflexivity| split; [intros ? ? ?; discriminate|]]
@@ -832,8 +960,9 @@ Definition lock_exclusive_stmt (c : cfg) (ks : list kind) : Prop :=
 Lemma fixed_no_torn_stmt c ks : forallb is_fixed_kind ks = true -> no_torn_visible_stmt c ks.
 Proof. intros Hk t evs f x. apply fixed_no_torn_visible. exact Hk. Qed.
 
-Lemma fixed_lock_stmt c ks : forallb is_fixed_kind ks = true -> lock_exclusive_stmt c ks.
-Proof. intros Hk t evs p q rp rq. apply fixed_lock_exclusive. exact Hk. Qed.
+Lemma fixed_lock_stmt c ks :
+  unlink_on_release c = false -> forallb is_fixed_kind ks = true -> lock_exclusive_stmt c ks.
+Proof. intros Hu Hk t evs p q rp rq. apply fixed_lock_exclusive; assumption. Qed.
 
 Lemma fixed_load_stmt c ks : forallb is_fixed_kind ks = true -> load_succeeds_stmt c ks.
 Proof.
@@ -868,7 +997,8 @@ Qed.
 
 (* ================================================= refuting witnesses === *)
 
-Definition c2 : cfg := mkCfg 2 2 18 3.   (* time unit: 100 s *)
+Definition c2 : cfg := mkCfg 2 2 18 3 false.   (* time unit: 100 s *)
+Definition c2u : cfg := mkCfg 2 2 18 3 true.   (* the same with "remove the lock file on release" *)
 Definition t0 : nat := 50.
 
 (* F2: a process is killed inside the in-place copy of file 1; the next load of version 1
@@ -918,7 +1048,7 @@ Lemma lock_witness :
   let w := run c2 (init t0 [KLoad 1; KLoad 1]) ev_lock in
   exists r0 r1, nth_error (procs w) 0 = Some r0 /\ nth_error (procs w) 1 = Some r1 /\
                 holding (pc_of r0) = true /\ holding (pc_of r1) = true /\
-                cache_err r0 = false /\ cache_err r1 = false /\ flock (sh w) = None.
+                cache_err r0 = false /\ cache_err r1 = false /\ locks (sh w) = [].
 Proof. vm_compute. eexists. eexists. repeat split; reflexivity. Qed.
 
 Lemma no_torn_visible_refuted :
@@ -963,6 +1093,42 @@ Lemma stamp_witness :
   no_crash ev_stamp /\ stamp (sh w) = StampTorn /\ outcome_of w 1 = Some (OFail FValueError).
 Proof. split; [repeat constructor|]. vm_compute. split; reflexivity. Qed.
 
+(* ANTI-PATTERN: "tidy up" by removing cache_lock.lock in __exit__.  Three contenders, nobody
+   killed: A holds the lock; B has started acquiring (it has the file open and its first attempt
+   failed); A leaves: unlock, close, unlink; B's next attempt locks the file it has open -- which
+   no longer has a name; C arrives, finds no lock file, creates a NEW one and locks that.  B and C
+   are inside "with CacheLock" together, each holding "the" lock. *)
+Definition ev_unlink : list event :=
+  [Run 0; Run 1; Run 2] ++ runs 0 2 ++ runs 1 2 ++ runs 0 12 ++ [Run 1] ++ runs 2 2.
+
+Lemma unlink_witness :
+  let w := run c2u (init t0 [KLoadFixed 1; KLoadFixed 1; KLoadFixed 1]) ev_unlink in
+  no_crash ev_unlink /\
+  exists r1 r2, nth_error (procs w) 1 = Some r1 /\ nth_error (procs w) 2 = Some r2 /\
+                holding (pc_of r1) = true /\ holding (pc_of r2) = true /\
+                fd r1 = Some 0 /\ fd r2 = Some 1 /\ lockfile (sh w) = Some 1 /\
+                lget (locks (sh w)) 0 = Some 1 /\ lget (locks (sh w)) 1 = Some 2.
+Proof.
+  split; [repeat constructor|]. vm_compute. eexists. eexists. repeat split; reflexivity.
+Qed.
+
+(* the very same schedule without the unlink: C's attempt fails, it is not inside *)
+Lemma unlink_contrast :
+  let w := run c2 (init t0 [KLoadFixed 1; KLoadFixed 1; KLoadFixed 1]) ev_unlink in
+  exists r1 r2, nth_error (procs w) 1 = Some r1 /\ nth_error (procs w) 2 = Some r2 /\
+                holding (pc_of r1) = true /\ pc_of r2 = FAcquire /\ tries r2 = 1 /\
+                lockfile (sh w) = Some 0 /\ lget (locks (sh w)) 0 = Some 1.
+Proof. vm_compute. eexists. eexists. repeat split; reflexivity. Qed.
+
+Lemma lock_exclusive_unlink_refuted :
+  exists c ks, forallb is_fixed_kind ks = true /\ unlink_on_release c = true /\
+               ~ lock_exclusive_stmt c ks.
+Proof.
+  exists c2u, [KLoadFixed 1; KLoadFixed 1; KLoadFixed 1]. split; [reflexivity|]. split; [reflexivity|].
+  intro H. destruct unlink_witness as (_ & r1 & r2 & H1 & H2 & Hh1 & Hh2 & _).
+  specialize (H t0 ev_unlink 1 2 r1 r2 H1 H2 Hh1 Hh2). discriminate H.
+Qed.
+
 (* ---------------------------------------------------------- non-vacuity *)
 
 (* two loaders of the current code interleaved step by step, nobody killed: both finish *)
@@ -987,7 +1153,7 @@ Lemma fixed_example :
   let w := run c2 (init t0 [KLoadFixed 1; KLoadFixed 1; KLoadFixed 0; KRefreshFixed]) ev_fixed in
   pc_at w 0 = Some Dead /\ outcome_of w 1 = Some OLoaded /\ outcome_of w 2 = Some OLoaded /\
   outcome_of w 3 = Some OSkipped /\ ver w 0 = Some (good 2) /\ ver w 1 = Some (good 2) /\
-  flock (sh w) = None /\ fget (files_of (sh w)) (Tmp 0 0) = Some [Good].
+  locks (sh w) = [] /\ fget (files_of (sh w)) (Tmp 0 0) = Some [Good].
 Proof. vm_compute. repeat split; reflexivity. Qed.
 
 (* ============== the repaired loader terminates (no deadlock, no livelock) === *)
@@ -1020,7 +1186,7 @@ Lemma fmeasure_decr c p s r s' r' :
   lf_pc (pc_of r) = true -> 0 < fmeasure c r -> pstep c p s r = (s', r') ->
   fmeasure c r' < fmeasure c r.
 Proof.
-  intros Hl Hm H. unfold pstep, after_chunk, lookup_fixed in H. unfold fmeasure in *.
+  intros Hl Hm H. unfold pstep, after_chunk, lookup_fixed, acquire_step in H. unfold fmeasure in *.
   destruct (pc_of r) eqn:Epc; try discriminate Hl; try lia;
     case_step H; simp_sh; rewrite ?Epc; unfold per_file in *;
     repeat match goal with
@@ -1045,7 +1211,7 @@ Qed.
 
 Lemma pstep_not_dead c p s r : pc_of r <> Dead -> pc_of (snd (pstep c p s r)) <> Dead.
 Proof.
-  intro Hd. destruct r as [k x tr po ce tt]. unfold pstep, after_chunk, lookup_fixed. simp_sh.
+  intro Hd. destruct r as [k x tr po ce tt dd]. unfold pstep, after_chunk, lookup_fixed, acquire_step. simp_sh.
   destruct x; try contradiction;
     repeat match goal with
            | |- context [if ?b then _ else _] => destruct b
